@@ -241,7 +241,20 @@ pub fn gen_update_case(r: &mut Rng, small: bool) -> UpdateCase {
     }
     // one case in twelve runs under a custom row validator that accepts everything
     let accept_all = !small && r.chance(1, 12);
+    // one case in eight: the runner has already run a script that left a sort mode / threshold behind
+    // (the update must see it, exactly as the later run of the updated file does)
+    let pre: Vec<String> = if !small && r.chance(1, 8) {
+        let mut v = vec![r.pick(&["control sortmode rowsort", "control sortmode valuesort", "hash-threshold 2", "hash-threshold 4"]).to_string()];
+        if r.chance(1, 3) {
+            v.push(r.pick(&["control sortmode rowsort", "hash-threshold 3"]).to_string());
+        }
+        v
+    } else {
+        vec![]
+    };
+    let has_pre = !pre.is_empty();
     UpdateCase {
+        pre,
         strict_cols: r.chance(1, 3),
         sep: r.pick(&[" ", "\t"]).to_string(),
         threshold: 0,
@@ -249,7 +262,7 @@ pub fn gen_update_case(r: &mut Rng, small: bool) -> UpdateCase {
         tree: Tree { files, root: "root.slt".into() },
         db,
         crash_at: None,
-        tag: format!("update repr={} accept_all={}", representable, accept_all),
+        tag: format!("update repr={} accept_all={} pre={}", representable, accept_all, has_pre),
         representable,
         expect_final: None,
         accept_all,
